@@ -1151,9 +1151,9 @@ def fixup_strided_conv(op: Operation, arch, nng):
             padding_size = expected_filter_size * opt_resize_factor - filter_width
 
             if ifm_current_padding_x == 0:
-                # If no HW padding is added to IFM, divide filter padding between left and right following
-                # the same strategy as the reference.
-                padding_left = padding_size // 2
+                # If no HW padding is added to IFM the kernel window starts at the first IFM column: the filter
+                # can only grow to the right.
+                padding_left = 0
             else:
                 # If HW padding is added to IFM, split padding for the filter so that left padding and right padding
                 # are proportional to left and right HW padding.
